@@ -249,7 +249,7 @@ pub fn run(ctx: &Ctx) -> i32 {
     let mut reports = vec![super::regression_suite(ctx), empty_suite()];
     reports.push(exhaustive_suite(ctx, "size_grid", wmax * hmax, &move |i, acc| grid_item(seed, wmax, i, acc)));
     reports.push(exhaustive_suite(ctx, "extreme_aspect", 300, &move |i, acc| extreme_item(seed, i, acc)));
-    let (cases, rw, rh) = ctx.tier.pick((100_000u64, 300i64, 120i64), (400_000u64, 700i64, 300i64));
+    let (cases, rw, rh) = ctx.tier.pick((100_000u64, 300i64, 120i64), (1_500_000u64, 700i64, 300i64));
     reports.push(tape_suite(ctx, "random_sizes", cases, 1600, &move |g| random_case(g, rw, rh)));
     let mut extra = Map::new();
     extra.insert("grid".into(), json!(format!("every (w,h) in 1..={} x 1..={} x 4 content families", wmax, hmax)));
